@@ -625,7 +625,8 @@ func escTruncateOracle(v, out []byte, n int, ellipsis bool) string {
 			return "result is not valid UTF-8 although the value is"
 		}
 	}
-	if len(p) < len(v) && !utf8.RuneStart(v[len(p)]) {
+	// the start of the text is always a boundary (text beginning with continuation bytes is cut to nothing)
+	if len(p) > 0 && len(p) < len(v) && !utf8.RuneStart(v[len(p)]) {
 		return "cut inside a character (next byte is a continuation byte)"
 	}
 	return ""
@@ -757,11 +758,7 @@ func escOracle(c *Case, impl string) *Viol {
 				ell = args[1] == "true"
 			}
 			if !isOK {
-				k := "dir:truncate:panic"
-				if !utf8.Valid(v) {
-					k = "dir:truncate:panic:invalid-utf8"
-				}
-				return escViol(k, "truncate("+itoa(n)+") does not return a value (Go panic, surfaced by evalPrint as a render error): "+impl)
+				return escViol("dir:truncate:fail", "truncate("+itoa(n)+") does not return a value (a Go panic is surfaced by evalPrint as a render error): "+impl)
 			}
 			if why := escTruncateOracle(v, out, n, ell); why != "" {
 				return escViol("dir:truncate", "truncate: "+why)
